@@ -1178,7 +1178,15 @@ func (h *SexpHash) NewSexpHashSelector(sym *SexpSymbol) *SexpHashSelector {
 	}
 }
 
+// errEmptySelector: the type registry hands out an empty prototype of the
+// selector types (every registered type has one, and every registered
+// name is a global: (var q hashSelector) binds it). It selects nothing.
+var errEmptySelector = fmt.Errorf("empty selector: no container or no selection")
+
 func (si *SexpHashSelector) SexpString(ps *PrintState) string {
+	if si.Container == nil || si.Select == nil {
+		return "(hashSelector)"
+	}
 	rhs, err := si.RHS(si.Container.Env)
 	if err != nil {
 		return fmt.Sprintf("SexpHashSelector error: could not get RHS: '%v'",
@@ -1198,8 +1206,8 @@ func (x *SexpHashSelector) RHS(env *Zlisp) (sx Sexp, err error) {
 	if env == nil {
 		panic("SexpHashSelector.RSH() called with nil env")
 	}
-	if x.Select == nil {
-		panic("cannot call RHS on hash selector with nil Select")
+	if x.Select == nil || x.Container == nil {
+		return SexpNull, errEmptySelector
 	}
 	//Q("SexpHashSelector.RHS(): x.Select is '%#v'", x.Select)
 	switch t := x.Select.(type) {
@@ -1228,6 +1236,9 @@ func (x *SexpHashSelector) RHS(env *Zlisp) (sx Sexp, err error) {
 }
 
 func (x *SexpHashSelector) AssignToSelection(env *Zlisp, rhs Sexp) error {
+	if x.Select == nil || x.Container == nil {
+		return errEmptySelector
+	}
 	//Q("in SexpHashSelector.AssignToSelection with rhs = '%v' and container = '%v'", rhs.SexpString(nil), x.Container.SexpString(nil))
 	switch sym := x.Select.(type) {
 	case *SexpSymbol:
